@@ -29,6 +29,7 @@ sequence and must predict the same emissions and the same close signal — the b
 code on every class x segmentation that was run.
 """
 import asyncio
+import gc
 import json
 import logging
 import os
@@ -288,7 +289,12 @@ def probe_cls(reader_cls):
 
 
 def _on_alarm(signum, frame):
-    raise ReaderHang(f'the event loop was blocked: the scenario did not finish within {CASE_WALL} s of CPU time')
+    where = []
+    f = frame
+    while f is not None and len(where) < 4:
+        where.append(f'{os.path.basename(f.f_code.co_filename)}:{f.f_lineno} {f.f_code.co_name}')
+        f = f.f_back
+    raise ReaderHang(f'the event loop was blocked: the scenario did not finish within {CASE_WALL} s of CPU time [at {" < ".join(where)}]')
 
 
 # ====================================================================== one scenario on the implementation
@@ -1041,6 +1047,9 @@ def run_hostile(ctx):
                         'followed by numbered probe frames; oracle on the implementation, reader event log replayed through Model/Framing.lean')
     todo, shrunk, blocked, hangs = [], [0], set(), {}
     t_start = time.time()
+    # the session family that ran before leaves hundreds of thousands of objects in reference cycles (loops, tasks, frames): collect them
+    # here, not in the middle of a scenario whose CPU time is limited (a full collection of that heap takes seconds)
+    gc.collect()
 
     def do(case, tag):
         fam = family_of(case['cls'])
@@ -1048,6 +1057,13 @@ def run_hostile(ctx):
             ctx.count('hostile:skipped-after-block:' + fam)       # (every further case would cost CASE_WALL seconds again)
             return
         res = run_case(case)
+        if 'hang' in res or res.get('max_wall', 0) > WALL_PER_FRAME:
+            # CPU time of this process also grows with what the machine does on its behalf (page faults under memory pressure on a
+            # loaded box): a blocked loop must be repeatable to count
+            res2 = run_case(case)
+            if 'hang' not in res2 and res2.get('max_wall', 0) <= WALL_PER_FRAME:
+                ctx.count('hostile:cpu-time-overrun-not-repeatable (machine load, not a verdict)')
+                res = res2
         ctx.case(describe(case), nontrivial=True, sample_every=211)
         ctx.count(f'hostile:{case["sess"]}:{case["phase"]}')
         if case.get('debug_log'):
@@ -1083,6 +1099,7 @@ def run_hostile(ctx):
         if len(todo) >= 400:
             correspond(ctx, drv, todo)
             del todo[:]
+            gc.collect()
 
     for fn, c in corpus_cases():
         do(c, 'corpus')
